@@ -47,6 +47,7 @@ static void bits_case(uint64_t idx, bool verbose) {
       fields.push_back({m.size(), n, v});
       for (int i = n - 1; i >= 0; i--) {
         bool b = (v >> i) & 1;
+        vf::poison_errno();
         w.write(b);
         m.push_back(b);
         C->evaluations++;
@@ -61,6 +62,7 @@ static void bits_case(uint64_t idx, bool verbose) {
       C->crumb_n("bitrun", idx, oi, n, b, m.size());
       fields.push_back({m.size(), n, b ? mask_bits(n) : 0});
       for (int i = 0; i < n; i++) {
+        vf::poison_errno();
         w.write(b);
         m.push_back(b);
         C->evaluations++;
@@ -127,6 +129,7 @@ static void bits_case(uint64_t idx, bool verbose) {
   const size_t nbits = m.size();
   std::shared_ptr<std::string> owned;
   std::unique_ptr<uint8_t[]> exact;
+  std::unique_ptr<std::string> decoy;
   BitReader r;
   int ctor = (int)g.below(3);
   g_op = "BitReader::ctor";
@@ -143,11 +146,17 @@ static void bits_case(uint64_t idx, bool verbose) {
   } else {
     owned = std::make_shared<std::string>(s);
     size_t st = g.below(nbits + 1);
-    r = BitReader(owned, st);
+    {
+      vf::poison_errno();
+      BitReader tmp(owned, st);
+      owned.reset();  // the reader alone keeps the bytes alive from here on
+      r = tmp;
+    }
+    decoy.reset(new std::string(s.size(), '\xDD'));
     if (r.where() != st) bad("BitReader:ctor-offset", "constructor offset not honoured", vf::fmt("%zu vs %zu", r.where(), st));
     r.go(0);
     r.truncate(nbits);
-    misc("bits:reader:ctor(shared_ptr,offset)+truncate");
+    misc("bits:reader:ctor(shared_ptr,offset):caller-reference-dropped");
   }
   size_t cur = 0;
   auto observers = [&](const char* after) {
